@@ -68,6 +68,14 @@ def violation(text, root):
             nxt = next((x for x in ls[i + 1:] if x.strip()), None)
             if nxt is not None and len(nxt) - len(nxt.lstrip(' ')) > len(m.group(1)):
                 blocks[m.group(2)] += 1
+                # a block that contains the reference to itself cannot be that reference's content (fix 13653fd):
+                # '(content missing)' is then the right answer, so this marker is left out of the clause
+                for x in ls[i + 1:]:
+                    if x.strip() and len(x) - len(x.lstrip(' ')) <= len(m.group(1)):
+                        break
+                    if '{{FOOTNOTE ' + m.group(2) + '}}' in x:
+                        blocks[m.group(2)] += 1
+                        break
 
     def notes_of(n, acc):
         if isinstance(n, str) or n[0] == 'meta':
